@@ -815,9 +815,14 @@ class C03Thresholds(Oracle):
                 continue
             t0, t1 = st[0][2], nst[0][2]
             k0, k1 = st[0][1], nst[0][1]
-            if t1 - t0 < d - 1e-6:
+            # "after the Wait started": the lower bound counts from the invocation's Started state (a Wait that was reached
+            # in the tick before a pause starts when the run resumes), the upper bound from its first recorded state
+            inst0 = st[0][3] if len(st[0]) > 3 else None
+            started = next((x for x in states if x[0] == "started" and (inst0 is None or x[3] == inst0)), None)
+            ts = started[2] if started is not None else t0
+            if t1 - ts < d - 1e-6:
                 self.v("C03", "C03.wait_too_short", "Wait",
-                       f"{n.text.strip()!r} started {t0:.3f}, next instruction started {t1:.3f}: {t1 - t0:.3f} s < {d} s")
+                       f"{n.text.strip()!r} started {ts:.3f}, next instruction started {t1:.3f}: {t1 - ts:.3f} s < {d} s")
             elif not any(t in self.disturbed_ticks for t in range(k0 - 1, k1 + 1)) and t1 - t0 > d + 0.2 + 1e-6:
                 # one tick interval, plus one more because tick times are binary floats: a Wait whose end falls exactly
                 # on a tick boundary may see tick_time a few ulp below it and take one more tick
@@ -936,6 +941,9 @@ class C04Interrupts(Oracle):
         self.ev_pos = 0
         self.conds = {n.id: model.cond_parse(n.arg) for n in self.watches}
         self.running_true_streak: dict[str, int] = {}
+        self.lost_reported: set[str] = set()
+        self.live_ok = self.enabled and plan.get("cfg", {}).get("wellformed", False) and \
+            not any(op[0] in ("cancel", "force", "inject", "edit") for op in plan["ops"])
         self.activated: dict[str, list[int]] = {}
         self.cancelled_offered_at: dict[str, int] = {}
 
@@ -989,6 +997,31 @@ class C04Interrupts(Oracle):
                 continue
             if truth:
                 self.cond_true_ticks[n.id].append(w.tick_no)
+            # C05 "exactly": a Watch that is registered and pending is not ended by the End block of a block it does not
+            # belong to - when its condition then holds over a stretch of Running ticks, it starts
+            if n.kind != "Watch" or not self.live_ok or n.id in self.lost_reported:
+                continue
+            r = self.registered.get(n.id)
+            if r is None or n.id in self.activated or n.id in self.cancelled_at or n.id in self.forced:
+                continue
+            if truth and w.state == "Running" and self.pre["state"] == "Running" and not w.engine.has_error_state() \
+                    and tag != "Block Time":
+                self.running_true_streak[n.id] = self.running_true_streak.get(n.id, 0) + 1
+            else:
+                self.running_true_streak[n.id] = 0
+            if self.running_true_streak[n.id] >= 10:
+                own = {a.arg for a in n.ancestors() if a.kind == "Block"}
+                ends = [e for e in w.events if e[1] == "block_end" and e[0] >= r]
+                if any(e[2] in own for e in w.events if e[1] == "block_end"):
+                    self.lost_reported.add(n.id)       # its own block has ended: legitimately gone
+                    continue
+                other = [e for e in ends if e[2] not in own]
+                if other and not in_repeating_scope(n) and not any(a.kind == "Macro" for a in n.ancestors()):
+                    self.lost_reported.add(n.id)
+                    self.v("C05", "C05.pending_watch_lost_at_end_of_other_block", "Watch",
+                           f"Watch {n.arg!r} ({n.id}) was registered in tick {r} and belongs to block(s) {sorted(own) or 'none'}; "
+                           f"block {other[0][2]!r} ended in tick {other[0][0]}; the condition has now held for 10 Running ticks "
+                           f"and the Watch has not started")
 
     def at_end(self, w):
         if not self.enabled:
